@@ -21,6 +21,7 @@
 #include <dirent.h>
 #include <sys/stat.h>
 #include <time.h>
+#include <pthread.h>
 #include "w2c2_base.h"
 #include "wasi.h"
 
@@ -62,6 +63,12 @@ DECL2(U32, random_get, (void*, U32, U32))
 DECL2(void, proc_exit, (void*, U32))
 #define CALL(abi, name, args) ((abi) == 'p' ? wasi_snapshot_preview1__##name args : wasi_unstable__##name args)
 
+static void* burner(void* p) {
+    long ms = *(long*)p; struct timespec t; volatile unsigned long x = 0;
+    do { int i; for (i = 0; i < 100000; i++) x += (unsigned long)i; clock_gettime(CLOCK_THREAD_CPUTIME_ID, &t); }
+    while (t.tv_sec * 1000 + t.tv_nsec / 1000000 < ms);
+    return NULL;
+}
 enum { R1 = 0x100, R2 = 0x110, IOV = 0x200, PATH1 = 0x400, WBUF = 0x1000, RBUF = 0x2000, STAT = 0x3000, DIRBUF = 0x4000, PATH2 = 0xC000, BIG = 0x10000 };
 #define MEMSIZE (40 * 65536)
 static U8* before;
@@ -191,11 +198,19 @@ int main(int argc, char** argv) {
         else if (!strcmp(cmd, "envsizes")) err = CALL(abi, environ_sizes_get, (NULL, R1, R2));
         else if (!strcmp(cmd, "env")) { memset(mem->data + BIG, 0xEE, 0x4000); memcpy(before, mem->data, MEMSIZE); err = CALL(abi, environ_get, (NULL, BIG, BIG + 0x1000)); }
         else if (!strcmp(cmd, "clock")) {
-            struct timespec t0, t1; clockid_t cid = strtoul(tok[2], 0, 10) == 1 ? CLOCK_MONOTONIC : CLOCK_REALTIME;
+            /* the same clock is read by this thread before and after the call: the WASI value must lie in between */
+            struct timespec t0, t1; unsigned long wid = strtoul(tok[2], 0, 10);
+            clockid_t cid = wid == 1 ? CLOCK_MONOTONIC : wid == 2 ? CLOCK_PROCESS_CPUTIME_ID : wid == 3 ? CLOCK_THREAD_CPUTIME_ID : CLOCK_REALTIME;
             clock_gettime(cid, &t0);
             err = CALL(abi, clock_time_get, (NULL, (U32)strtoul(tok[2], 0, 10), 1, R1));
             clock_gettime(cid, &t1);
             printf("{\"i\":%d,\"bracket\":[%ld,%ld,%ld,%ld]}\n", callno, (long)t0.tv_sec, (long)t0.tv_nsec, (long)t1.tv_sec, (long)t1.tv_nsec);
+        } else if (!strcmp(cmd, "burn")) {
+            /* a helper thread uses the given milliseconds of CPU: afterwards the process CPU clock is far ahead of this thread's */
+            pthread_t th; long ms = strtol(tok[2], 0, 10);
+            pthread_create(&th, NULL, burner, &ms); pthread_join(th, NULL);
+            printf("{\"i\":%d,\"call\":\"burn\",\"errno\":0,\"changed\":[]}\n", callno); fflush(stdout);
+            continue;
         } else if (!strcmp(cmd, "random")) {
             U32 len = (U32)strtoul(tok[2], 0, 10), fill = (U32)strtoul(tok[3], 0, 10); memset(mem->data + BIG - 64, (int)fill, len + 128);
             memcpy(before, mem->data, MEMSIZE);
